@@ -2762,7 +2762,16 @@ impl Node for XmlDocumentType {
     }
 
     fn parent_node(&self) -> Option<XmlNode> {
-        Some(XmlDocument::from(self.declaration.borrow().parent()).as_node())
+        let document = self.declaration.borrow().parent();
+        let attached = document
+            .borrow()
+            .document_declaration()
+            .is_some_and(|v| Rc::ptr_eq(&v, &self.declaration));
+        if attached {
+            Some(XmlDocument::from(document).as_node())
+        } else {
+            None
+        }
     }
 
     fn child_nodes(&self) -> XmlNodeList {
